@@ -362,6 +362,8 @@ def verify_mapper_method(mc: MapperContract, node_cls, specs, rlimit=20_000_000,
         node_name = node_cls
     else:
         tgt = dispatch_target(mapper_cls, node_cls)
+        if mc.methods:          # contract on a helper handler that is not the dispatch target (e.g. map_*_uncached)
+            tgt = (mc.methods[0], getattr(mapper_cls, mc.methods[0]))
         node_name = node_cls.__name__
     rep = dict(contract=mc.name, node_class=node_name, obligations=[], status="ok",
                function=None, paths=0, time_s=0.0)
@@ -441,7 +443,8 @@ def verify_mapper_method(mc: MapperContract, node_cls, specs, rlimit=20_000_000,
             I.rec_calls.append((x, a, k))
             return I.call_function(Conc(mc.rec), [self_obj, x, a, k], {})
         I.rec_calls = []
-        selfv.rec_contract = NativeHandler(rec_handler)
+        if selfv.rec_contract is None:
+            selfv.rec_contract = NativeHandler(rec_handler)
 
         def run_code():
             return I.call_function(Conc(fobj), [selfv, expr], {}, star, dstar, owner=_owner_of(mapper_cls, mname))
@@ -459,7 +462,8 @@ def verify_mapper_method(mc: MapperContract, node_cls, specs, rlimit=20_000_000,
                                                                        effects=getattr(mc, "effects", False))]
         for ename, efn in mc.ensures:
             rep["obligations"] += [o.as_dict() for o in
-                                   check_ensures(I, code_outs, efn, [selfv, expr, args_val, kw_val], f"{oname}/{ename}", rlimit)]
+                                   check_ensures(I, code_outs, efn, [selfv, expr, args_val, kw_val], f"{oname}/{ename}", rlimit,
+                                                 allowed_exc=getattr(mc, "allowed_exc", (NotImplementedError,)))]
         if getattr(mc, "dict_invs", None):
             rep["obligations"] += [o.as_dict() for o in check_dict_writes(I, mc, selfv, code_outs, oname, rlimit)]
         # vacuity: the precondition/axiom set must be satisfiable
@@ -554,11 +558,20 @@ def _owner_of(cls, name):
     return None
 
 
-def check_ensures(I, code_outs, efn, base_args, oname, rlimit, on_exc=False, after=()):
-    """Boolean postcondition on every returning path of the code."""
+def check_ensures(I, code_outs, efn, base_args, oname, rlimit, on_exc=False, after=(), allowed_exc=()):
+    """Boolean postcondition on every returning path of the code; a feasible raising path that the contract does
+    not mention is reported as undecided (never silently skipped, never a violation by itself)."""
     obs = []
     for i, co in enumerate(code_outs):
         if co.kind != "ret" and not on_exc:
+            k = co.value.kind
+            if k is not None and any(issubclass(k, a) for a in allowed_exc):
+                continue
+            r, _ = smt.check(I.ctx, I.pcs + co.pcs, rlimit=rlimit)
+            if r != "unsat":
+                obs.append(Obligation(f"{oname}/no-unexpected-exception/path{i}", "undecided", "z3", 0.0,
+                                      f"the code can raise {co.value!r} on a path the contract does not describe", "",
+                                      goal="every path returns (or raises an error the contract names)"))
             continue
         t0 = time.time()
         saved = len(I.pcs)
@@ -689,7 +702,8 @@ def verify_function(fc: FunctionContract, specs, rlimit=20_000_000, hooks=None):
                                                                        effects=getattr(fc, "effects", False))]
         for ename, efn in fc.ensures:
             rep["obligations"] += [o.as_dict() for o in check_ensures(I, code_outs, efn, spec_inputs, f"{oname}/{ename}", rlimit,
-                                                                     after=([old_val] if fc.old is not None else []))]
+                                                                     after=([old_val] if fc.old is not None else []),
+                                                                     allowed_exc=tuple(x[2] for x in fc.raises) + tuple(getattr(fc, "allowed_exc", ())))]
         for rname, cond, exc_cls in fc.raises:
             rep["obligations"] += [o.as_dict() for o in check_raises(I, code_outs, cond, exc_cls, spec_inputs, f"{oname}/{rname}", rlimit)]
         if getattr(fc, "dict_invs", None):
